@@ -1,6 +1,6 @@
 """C12 — RAG chunks cover the document once, in order, with true metadata
-(Chunking.tla, ChunkingMC.tla, ChunkingTrace.tla, ChunkPack.tla, SectionTree.tla)."""
-import json
+(Chunking.tla, ChunkingMC.tla, ChunkingTrace.tla, ChunkPack.tla, SectionTree.tla, ChunkReuse.tla)."""
+import json, random
 from concurrent.futures import ThreadPoolExecutor
 from lib import vlib
 from checks.common import absorb, replay_generic
@@ -23,6 +23,9 @@ EVIDENCE = dict(
          "1..6, 3 at depth 6 in thorough), plus <= 4 elements with skipped levels / bare headings; these, the simulated and the "
          "random documents are also chunked with ChunkerConfig.MinHeadingLevel 1, 2, 4, 5, 6 (the spec emits the expected chain "
          "for every MinHeadingLevel). "
+         "Reuse: every history of 2-3 calls over two documents, and two goroutines, on ONE chunker object per configuration "
+         "(documents sampled from the cases above: deep heading trees, oversize paragraphs, lists at section ends), each result "
+         "compared with a fresh object's and judged by the contract. "
          "PDF entry point: every document of <= 4 (thorough 5) letters over {H 18 pt, H 14 pt, P 3 lines, P 6 lines, L(3) "
          "bulleted/numbered, new page} plus -simulate documents (<= 3 pages, <= 5 elements per page) is rendered as positioned "
          "text (pdfdoc.BuildSimple) and read back through tabula.Open(pdf).Document() (page elements), .Chunks() and "
@@ -56,6 +59,11 @@ NOTES = """Interpretation choices (soundness first):
   MinHeadingLevel = m it must be the chain over headings of level <= m (emitted by the spec for m = 1..6) or the full chain.
   SectionTitle, and the "[title]" line of TextWithContext when present, must name the innermost entry of the chunk's
   SectionPath (judged first; a chunk without path - preamble, heading-less document - is not judged on its title).
+* Reuse (ChunkReuse.tla): one DocumentChunker / Chunker object per configuration chunks A, B, A ... (every history of 2-3
+  calls over two documents) and A, B from two goroutines sharing it (6 rounds); every result must be identical to a fresh
+  object's result for the same document (units, indices, ids, pages, paths, totals, title) and is judged by the chunking
+  contract as well.  Two extractors derived from one base (PageRange(1, n) twice) must each give the chunks of a fresh
+  tabula.Open(pdf).Chunks().  Goroutine interleavings are sampled, not enumerated (the race detector is not used here).
 * PDF entry point: only conservation, order and metadata are asserted - every word token exactly once and in document order
   in Document().Pages[*].Elements (each element = one "chunk" on its page; elements without any word, e.g. a stray marker, are
   not judged), in the chunk texts and in the Markdown (one "chunk"); chunk indices/ids/totals; page ranges.  Whether the layout
@@ -142,8 +150,14 @@ def run(ctx):
             # how the layout chunker gives sections their path: append(parent.Path, heading) shares backing arrays between
             # siblings (first at depth 4: H1 H2 H3 H4 H4) and must be refuted
             ("SectionTree", "SectionTree_mc.cfg", {}),
-            ("SectionTree", "SectionTree_mc_append.cfg", {"expect_violation": True})]
-    with ThreadPoolExecutor(max_workers=8) as ex:
+            ("SectionTree", "SectionTree_mc_append.cfg", {"expect_violation": True}),
+            # one chunker object, several calls / two goroutines: walk state kept in the call is pure; kept in the object
+            # and reset per call it is pure for one caller only; never reset it is not pure
+            ("ChunkReuseMC", "ChunkReuse_mc.cfg", {}),
+            ("ChunkReuseMC", "ChunkReuse_mc_reset_seq.cfg", {}),
+            ("ChunkReuseMC", "ChunkReuse_mc_reset_par.cfg", {"expect_violation": True}),
+            ("ChunkReuseMC", "ChunkReuse_mc_carry.cfg", {"expect_violation": True})]
+    with ThreadPoolExecutor(max_workers=10) as ex:
         futs = [ex.submit(ctx.tlc, m, c, workers=3, timeout=3000, count=False, jvm=JVM_SMALL, **kw) for m, c, kw in jobs]
         # R2 emission runs meanwhile, in a second pool (one JVM each, single worker for a stable order)
         def emit(cfg, **kw):
@@ -160,10 +174,13 @@ def run(ctx):
                 "skip": ex2.submit(emit, "Chunking_gen_tree_skip.cfg"),
                 "pdfgen": ex2.submit(emit, "Chunking_gen_pdf_quick.cfg" if q else "Chunking_gen_pdf_thorough.cfg"),
                 "pdfsim": ex2.submit(emit, "Chunking_sim_pdf.cfg", simulate=60 if q else 1500, depth=13),
+                "hist": ex2.submit(ctx.tlc, "ChunkReuseHist", "ChunkReuse_gen.cfg", workers=1, collect=True, count=False,
+                                   timeout=3000, jvm=JVM_SMALL),
                 "sim": ex2.submit(emit, "Chunking_sim.cfg", simulate=150 if q else 4000, depth=13),
             }
             gen, lists, bound, tree, skip, pdfgen, pdfsim, sim = [e[k].result() for k in
                                                                   ("gen", "lists", "bound", "tree", "skip", "pdfgen", "pdfsim", "sim")]
+            hists = e["hist"].result()["cases"]
             if e["gap"] is not None:
                 gen["cases"] += e["gap"].result()["cases"]
         for f, (_, _, kw) in zip(futs, jobs):
@@ -216,6 +233,28 @@ def run(ctx):
     ctx.sample({"pdf_doc": pdfcases[len(pdfcases) // 2]["doc"], "pages": pdfcases[len(pdfcases) // 2]["pages"]})
     pres = absorb(ctx, ctx.run_driver(["c12", "pdf"], pdfcases), label="pdf")
     r2events += [e for r in pres if r["ok"] for e in (r.get("events") or [])]
+    # reuse histories (ChunkReuse.tla): one object per configuration chunks A, B, A ... / A and B from two goroutines
+    if not hists:
+        raise vlib.MachineryError("TLC emitted no call histories")
+    rnd = random.Random(ctx.seed)
+    ln = [c for c in cases if c["lnorm"] and c["doc"]]
+    deep = [c for c in ln if max([e["a"] for e in c["doc"] if e["k"] == "H"] or [0]) >= 4]
+    big = [c for c in ln if any(e["k"] == "P" and e["a"] in (3, 6, 7, 8) for e in c["doc"])]
+    lst = [c for c in ln if c["doc"][-1]["k"] == "L" and any(e["k"] == "H" for e in c["doc"])]
+    anyc = [c for c in cases if not c["lnorm"] and len(c["doc"]) >= 3]
+    if not (deep and big and lst and anyc):
+        raise vlib.MachineryError("no documents to build reuse histories from")
+    npairs = 6 if q else 40
+    pairs = []
+    for _ in range(npairs):
+        pairs += [(rnd.choice(deep), rnd.choice(big)), (rnd.choice(big), rnd.choice(lst)), (rnd.choice(lst), rnd.choice(deep)),
+                  (rnd.choice(anyc), rnd.choice(anyc))]
+    strip = lambda c: {k: c[k] for k in ("doc", "pages", "lnorm", "els")}
+    reuse = [{"docs": [strip(a), strip(b)], "hist": h["hist"], "par": h["par"], "tm": 9} for a, b in pairs for h in hists]
+    ctx.extra["cases_reuse_histories"] = len(reuse)
+    ctx.sample({"reuse_history": reuse[0]["hist"], "docs": [reuse[0]["docs"][0]["doc"], reuse[0]["docs"][1]["doc"]]})
+    rres = absorb(ctx, ctx.run_driver(["c12", "reuse"], reuse), label="reuse")
+    r2events += [e for r in rres if r["ok"] for e in (r.get("events") or [])]
     # R3: documents TLC did not generate
     nreq, ndoc, ln = (16, 3, 30) if q else (64, 12, 40)
     rec = ctx.run_driver(["c12", "record"], [{"n": ndoc, "len": ln} for _ in range(nreq)])
@@ -259,6 +298,8 @@ def replay(ctx, rp):
     traced = [r["case"] for r in items if r.get("via") == "tracecase"]
     if items and items[0].get("via") == "pdf":
         return replay_generic(ctx, rp, ["c12", "pdf"])
+    if items and items[0].get("via") == "reuse":
+        return replay_generic(ctx, rp, ["c12", "reuse"])
     if not traced:
         return replay_generic(ctx, rp, ["c12", "replay"])
     res = ctx.run_driver(["c12", "tracecase"], traced)
